@@ -57,6 +57,10 @@ inductive Outcome where
 /-- the counter value `get_initialization_vector` leaves behind = the one inside the IV -/
 def bump (c : UInt32) : UInt32 := (Generated.getInitializationVector c true).1
 
+/-- the 32-bit counter space of a direction is used up: `encrypt` / `decrypt` refuse (since the C15
+`fix:` commit) instead of wrapping into a used IV -/
+def atMax (c : UInt32) : Bool := c == 4294967295
+
 /-- AEAD acceptance: the receiver computes IV(dir, ctr') and the ciphertext was made with
 IV(dir', n) under session `sess'` keys. -/
 def accepts (wantFromReader : Bool) (mySess : Nat) (ctr' : UInt32)
@@ -68,14 +72,19 @@ begin with) is built, encrypted with the next device counter and staged for retr
 def Device.finalizeIfComplete (d : Device) : Device :=
   match d.st with
   | .signing [] signed status =>
-    let c' := bump d.encCtr
-    { d with encCtr := c', st := .ready (.ct false d.sess c'.toNat (.response status signed) false) }
+    if atMax d.encCtr then
+      -- `encrypt_device_data` refuses: SessionData { status: 10 (session encryption error), no data }
+      { d with st := .ready .noData }
+    else
+      let c' := bump d.encCtr
+      { d with encCtr := c', st := .ready (.ct false d.sess c'.toNat (.response status signed) false) }
   | _ => d
 
 def Device.handleRequest (d : Device) : Msg → Device × Outcome
   | .garbage => (d, .parsingError)
   | .noData => (d, .parsingError)
   | .ct fr s n p t =>
+    if atMax d.decCtr then (d, .decryptionError) else    -- `decrypt_reader_data` refuses, the counter stays
     let c' := bump d.decCtr
     let d := { d with decCtr := c' }
     if accepts true d.sess c' fr s n t then
@@ -121,15 +130,17 @@ def Device.retrieve (d : Device) : Device × Option Msg :=
   | _ => (d, none)
 
 /-- `new_request` / `build_request` -/
-def Reader.newRequest (r : Reader) : Reader × Msg :=
+def Reader.newRequest (r : Reader) : Reader × Option Msg :=
+  if atMax r.encCtr then (r, none) else    -- "unable to encrypt request"
   let c' := bump r.encCtr
-  ({ r with encCtr := c' }, .ct true r.sess c'.toNat .request false)
+  ({ r with encCtr := c' }, some (.ct true r.sess c'.toNat .request false))
 
 /-- `handle_response` up to and including decryption -/
 def Reader.handleResponse (r : Reader) : Msg → Reader × Outcome
   | .garbage => (r, .parsingError)
   | .noData => (r, .statusOnly)
   | .ct fr s n p t =>
+    if atMax r.decCtr then (r, .decryptionError) else
     let c' := bump r.decCtr
     let r := { r with decCtr := c' }
     if accepts false r.sess c' fr s n t then (r, .accepted p) else (r, .decryptionError)
@@ -165,8 +176,9 @@ def World.withDev (w : World) (d : Device) : World :=
 
 def World.step (w : World) : Op → World
   | .newRequest =>
-    let (r, _) := w.rdr.newRequest
-    { w with rdr := r, log := w.log ++ [(true, r.encCtr, ivOf true w.rdr.encCtr)] }
+    match w.rdr.newRequest with
+    | (r, some _) => { w with rdr := r, log := w.log ++ [(true, r.encCtr, ivOf true w.rdr.encCtr)] }
+    | (_, none) => w
   | .handleRequest m => w.withDev (w.dev.handleRequest m).1
   | .prepare docs => w.withDev (w.dev.prepare docs)
   | .getNext => w
